@@ -686,3 +686,43 @@ Proof.
     + unfold rc3. cbn. exact RC.
     + cbn. repeat split; auto.
 Qed.
+
+(* ---- every step of a thread ---- *)
+Theorem thread_step3 ms t ms' t' : MW ms -> T3 ms t -> mstep_core ms t = (ms', t') -> step3 ms t ms' t'.
+Proof.
+  intros W I H. destruct (susp t) eqn:Es.
+  - unfold susp in Es. unfold T3 in I. destruct (m_walks t) as [|w ws] eqn:Hw; [discriminate|].
+    destruct (w_own w) as [[r c]|] eqn:Ho; [|discriminate]. destruct I as [IB NWI].
+    pose proof NWI as (_ & _ & _ & _ & g0 & _ & _ & _ & _ & PH).
+    destruct (m_pc t) eqn:Hpc; try contradiction.
+    + eapply core3_run; eauto.
+    + eapply core3_head; eauto.
+    + eapply core3_next; eauto.
+    + eapply core3_close; eauto.
+  - apply (T3_unsusp ms t Es) in I. destruct I as [I Q]. eapply core3_unsusp; eauto.
+Qed.
+
+(* ---- over the thread list ---- *)
+Lemma advance_reg tt : reg_phase (advance tt) = false /\ m_wrote (advance tt) = m_wrote tt.
+Proof.
+  unfold advance, after_walk, reg_phase. destruct (m_walks tt) as [|w ws]; [cbn; auto|].
+  destruct (w_rest w); [|cbn; auto]. destruct (w_ph w); [destruct (w_snap w)|]; cbn; auto;
+    destruct (w_own w); cbn; auto; destruct (m_prev tt); cbn; auto.
+Qed.
+
+Lemma core_susp ms t ms' t' w ws rc : m_walks t = w :: ws -> w_own w = Some rc ->
+  (m_pc t = MHead \/ m_pc t = MRun \/ m_pc t = MNext \/ m_pc t = MClose) ->
+  mstep_core ms t = (ms', t') -> reg_phase t' = false /\ m_wrote t' = m_wrote t.
+Proof.
+  intros Hw Ho Hp H. unfold mstep_core in H. destruct rc as [r c].
+  destruct Hp as [Hp|[Hp|[Hp|Hp]]]; rewrite Hp, ?Hw in H.
+  - cbv zeta in H. rewrite Ho in H. injection H as <- <-.
+    match goal with |- context [advance ?x] => destruct (advance_reg x) as [A B] end.
+    split; [exact A|]. rewrite B. destruct (negb (memn c (ms_list ms))); destruct r; reflexivity.
+  - cbv zeta in H. destruct (step_thread np0 _ _) as [s' u'].
+    destruct (_ && m_grown t); [injection H as <- <-; split; reflexivity|].
+    destruct (pc_is _ LLook2 && _); [injection H as <- <-; split; [reflexivity|destruct (m_role t); reflexivity]|].
+    try rewrite Hw in H. destruct (visit_ended _ _ _); injection H as <- <-; unfold reg_phase; destruct (m_role t); cbn; rewrite ?Hp; split; reflexivity.
+  - injection H as <- <-. apply advance_reg.
+  - rewrite Ho in H. destruct (step_thread np0 _ _) as [s' u']. injection H as <- <-. split; [reflexivity|destruct r; reflexivity].
+Qed.
